@@ -44,6 +44,9 @@ type in06 struct {
 	Batch string
 	PID   int
 	Msg   storage.Message
+	// Wire: for a proposal, the batch id it carries on the wire; Batch is the batch's identity in
+	// the reference model (two proposals with one id and different tasks are different batches)
+	Wire string
 }
 
 type st06 struct {
@@ -132,7 +135,13 @@ func explore06(r *kit.Run, n, t int, agedKey bool) (int, int, string) {
 	for _, b := range batches {
 		for _, p := range proposers {
 			m := proposal(p, b)
-			alphabet = append(alphabet, in06{Label: fmt.Sprintf("propose(%s by %d)", b.ID, p), Kind: "proposal", Batch: b.ID, PID: p, Msg: m})
+			alphabet = append(alphabet, in06{Label: fmt.Sprintf("propose(%s by %d)", b.ID, p), Kind: "proposal", Batch: b.ID, Wire: b.ID, PID: p, Msg: m})
+		}
+		if b.ID == "batch-1" {
+			// the first batch's id on a proposal with OTHER tasks (enabled once the id was used on the
+			// path): if a node takes it, the answers made for the first batch are foreign to it
+			other := Batch{ID: b.ID, Tasks: world.SimpleTasks("b1", []byte("another payload under the first batch's id"), []byte{9, 9})}
+			alphabet = append(alphabet, in06{Label: fmt.Sprintf("propose(%s with other tasks by %d)", b.ID, proposers[0]), Kind: "proposal", Batch: b.ID + "#other-tasks", Wire: b.ID, PID: proposers[0], Msg: proposal(proposers[0], other)})
 		}
 		// genuine answers of every participant to this batch, produced by the real machines
 		s1 := k.PostMsg(sw.Init, proposal(0, b), "setup")
@@ -197,6 +206,9 @@ func explore06(r *kit.Run, n, t int, agedKey bool) (int, int, string) {
 		snap := store.get(cur.Snap)
 		var out []*xsearch.St
 		for _, in := range alphabet {
+			if in.Kind == "proposal" && in.Wire != in.Batch && !containsStr(cur.Mon.Seen, in.Wire) {
+				continue // (answers to a batch that was never proposed would be a Byzantine participant's)
+			}
 			err, after, appended, logs := lab.StepL(snap, in.Msg)
 			trace := func() interface{} { return append(s.Trace(), in.Label) }
 			flagged := false
@@ -238,8 +250,8 @@ func explore06(r *kit.Run, n, t int, agedKey bool) (int, int, string) {
 			expectAttempt := false
 			switch in.Kind {
 			case "proposal":
-				accepted := dA.State == sif.StateSigningAwaitPartialSigns && dA.Payload.SigningProposalPayload != nil && dA.Payload.SigningProposalPayload.BatchID == in.Batch
-				if mon.Cur == "" && containsStr(mon.Seen, in.Batch) && !accepted {
+				accepted := dA.State == sif.StateSigningAwaitPartialSigns && dA.Payload.SigningProposalPayload != nil && dA.Payload.SigningProposalPayload.BatchID == in.Wire
+				if mon.Cur == "" && containsStr(mon.Seen, in.Wire) && !accepted {
 					// a batch id that was proposed before on this path (its operation may still be in
 					// this node's pool): "the next proposal" of the statement is a new batch; whether
 					// a repeated one is taken again is left open - but a refusal must change nothing
@@ -253,8 +265,8 @@ func explore06(r *kit.Run, n, t int, agedKey bool) (int, int, string) {
 						viol("C06/next-proposal-not-accepted", fmt.Sprintf("after the previous batch ended (%s) the proposal %s was not accepted: err=%v state=%s", dB.State, in.Label, err, dA.State))
 					} else {
 						mon.Cur, mon.Contrib, mon.Failed = in.Batch, nil, nil
-						if !containsStr(mon.Seen, in.Batch) {
-							mon.Seen = append(mon.Seen, in.Batch)
+						if !containsStr(mon.Seen, in.Wire) {
+							mon.Seen = append(mon.Seen, in.Wire)
 							sort.Strings(mon.Seen)
 						}
 					}
